@@ -86,13 +86,16 @@ def yadism_modules():
     return mods
 
 
-def prune_caches(keep=4):
+def prune_caches(keep=8, min_age_s=3 * 3600):
+    """Remove old per-tree cache directories (never one that was used recently: another check may be running on it)."""
     root = WORK / "nbcache"
     if not root.is_dir():
         return
+    now = time.time()
     dirs = sorted((d for d in root.iterdir() if d.is_dir()), key=lambda d: d.stat().st_mtime)
     for d in dirs[:-keep]:
-        shutil.rmtree(d, ignore_errors=True)
+        if now - d.stat().st_mtime > min_age_s:
+            shutil.rmtree(d, ignore_errors=True)
 
 
 def prepare(mode="jit", quiet=False):
